@@ -323,53 +323,53 @@ Definition task_uncancel (st : state) : state :=
   end.
 
 (* ================= CancelScope ================= *)
+Definition upd_scope (st : state) (k : nat) (f : scope -> scope) : state := put_scope st k (f (get_scope st k)).
+Definition sc_set_ch (ch : option nat) (s : scope) : scope :=
+  mkScope (s_host s) (s_hostc s) (s_calls s) (s_state s) (s_called s) (s_caught s) (s_deadline s) (s_th s) ch.
+Definition sc_set_th (th : option nat) (s : scope) : scope :=
+  mkScope (s_host s) (s_hostc s) (s_calls s) (s_state s) (s_called s) (s_caught s) (s_deadline s) th (s_ch s).
+Definition sc_inc_calls (s : scope) : scope :=
+  mkScope (s_host s) (s_hostc s) (S (s_calls s)) (s_state s) (s_called s) (s_caught s) (s_deadline s) (s_th s) (s_ch s).
+Definition sc_set_called (s : scope) : scope :=
+  mkScope (s_host s) (s_hostc s) (s_calls s) (s_state s) true (s_caught s) (s_deadline s) None (s_ch s).
+Definition sc_set_deadline (dl : option nat) (s : scope) : scope :=
+  mkScope (s_host s) (s_hostc s) (s_calls s) (s_state s) (s_called s) (s_caught s) dl None (s_ch s).
+
+(* the tail of __deliver_cancellation: re-arm for the next loop turn, or stop *)
+Definition deliver_arm (st : state) (k : nat) (retry : bool) : state :=
+  if retry then upd_scope (fst (call_soon st (HDeliver k))) k (sc_set_ch (Some (nexth st)))
+  else upd_scope st k (sc_set_ch None).
+(* host_task.cancel(msg=self.__cancellation_id()); self.__host_task_cancel_calls += 1 *)
+Definition deliver_issue (st : state) (k : nat) : state :=
+  upd_scope (task_cancel st (Some k)) k sc_inc_calls.
+
 Definition deliver (st : state) (k : nat) : state :=
-  let s := get_scope st k in
-  if negb (s_host s) then st else
-  let '(st, retry) :=
-    match delayed st with
-    | Some (_, m) => (st, msg_eqb m (Some k))
-    | None =>
-        if negb (t_must st) && negb (task_is_current st) then
-          let st := task_cancel st (Some k) in
-          let s := get_scope st k in
-          (put_scope st k (mkScope (s_host s) (s_hostc s) (S (s_calls s)) (s_state s) (s_called s) (s_caught s)
-                                   (s_deadline s) (s_th s) (s_ch s)), true)
-        else (st, true)
-    end in
-  let '(st, ch) := if retry then (let '(st, h) := call_soon st (HDeliver k) in (st, Some h)) else (st, None) in
-  let s := get_scope st k in
-  put_scope st k (mkScope (s_host s) (s_hostc s) (s_calls s) (s_state s) (s_called s) (s_caught s)
-                          (s_deadline s) (s_th s) ch).
+  if negb (s_host (get_scope st k)) then st else
+  match delayed st with
+  | Some (_, m) => deliver_arm st k (msg_eqb m (Some k))
+  | None =>
+      if negb (t_must st) && negb (task_is_current st) then deliver_arm (deliver_issue st k) k true
+      else deliver_arm st k true
+  end.
 
 Definition scope_cancel (st : state) (k : nat) : state :=
-  let s := get_scope st k in
-  if s_called s then st else
-  let st := cancel_ohandle st (s_th s) in
-  let st := put_scope st k (mkScope (s_host s) (s_hostc s) (s_calls s) (s_state s) true (s_caught s)
-                                    (s_deadline s) None (s_ch s)) in
-  deliver st k.
+  if s_called (get_scope st k) then st else
+  deliver (upd_scope (cancel_ohandle st (s_th (get_scope st k))) k sc_set_called) k.
 
 Definition setup_timeout (st : state) (k : nat) : state :=
-  let s := get_scope st k in
-  match s_deadline s with
+  match s_deadline (get_scope st k) with
   | None => st
   | Some dl =>
       if dl <=? time st then scope_cancel st k
-      else let '(st, h) := call_at st dl (HScopeCancel k) in
-           let s := get_scope st k in
-           put_scope st k (mkScope (s_host s) (s_hostc s) (s_calls s) (s_state s) (s_called s) (s_caught s)
-                                   (s_deadline s) (Some h) (s_ch s))
+      else upd_scope (fst (call_at st dl (HScopeCancel k))) k (sc_set_th (Some (nexth st)))
   end.
 
 Definition scope_reschedule (st : state) (k : nat) (when : option nat) : state :=
   let s := get_scope st k in
-  let st := cancel_ohandle st (s_th s) in
-  let st := put_scope st k (mkScope (s_host s) (s_hostc s) (s_calls s) (s_state s) (s_called s) (s_caught s)
-                                    when None (s_ch s)) in
+  let st' := upd_scope (cancel_ohandle st (s_th s)) k (sc_set_deadline when) in
   match s_state s with
-  | SEntered => if s_called s then st else setup_timeout st k
-  | _ => st
+  | SEntered => if s_called s then st' else setup_timeout st' k
+  | _ => st'
   end.
 
 (* CancelScope(deadline=...) [+ cancel() before entering] + __enter__ *)
@@ -400,27 +400,35 @@ Definition check_pending (st : state) : state :=
   | None => st
   end.
 
-(* CancelScope.__exit__(exc); returns the state and the return value (cancelled_caught) *)
+(* the `if self.__cancel_called:` part of __exit__ that looks at the exception:
+   (state, __host_task_cancel_calls left, __cancelled_caught) *)
+Definition exit_called (st : state) (k : nat) (s : scope) (exc : option exn) : state * nat * bool :=
+  match exc with
+  | Some (ECancel m) =>
+      let '(calls, cnt, floor, hit) := uncancel_loop (s_calls s) (t_cnt st) (s_hostc s) (g_floor st) in
+      (set_g_floor (set_t_cnt st cnt) floor, calls, if hit then true else msg_eqb (Some k) m)
+  | Some _ => (st, s_calls s, false)
+  | None => (st, s_calls s, s_caught s)
+  end.
+(* ... and the part that drops a delayed cancellation carrying this scope's id *)
+Definition exit_drop_delayed (st : state) (k : nat) : state :=
+  match delayed st with
+  | Some (h, m) => if msg_eqb m (Some k) then cancel_handle (set_delayed st None) h else st
+  | None => st
+  end.
+
+(* CancelScope.__exit__(exc); returns the state and the return value (cancelled_caught).
+   `if self.__state is not ENTERED: raise RuntimeError` -- __host_task is set exactly while the state is ENTERED; the
+   branch is unreachable for the programs of this language (flagged by g_abort). *)
 Definition scope_exit (st : state) (k : nat) (exc : option exn) : state * bool :=
   let s := get_scope st k in
+  if negb (s_host s) then (set_g_abort st true, false) else
   let st := cancel_ohandle (cancel_ohandle st (s_th s)) (s_ch s) in
   let st := set_sstack st (tl (sstack st)) in
-  let '(st, calls, caught) :=
-    if s_called s then
-      let '(st, calls, caught) :=
-        match exc with
-        | Some (ECancel m) =>
-            let '(calls, cnt, floor, hit) := uncancel_loop (s_calls s) (t_cnt st) (s_hostc s) (g_floor st) in
-            (set_g_floor (set_t_cnt st cnt) floor, calls, if hit then true else msg_eqb (Some k) m)
-        | Some _ => (st, s_calls s, false)
-        | None => (st, s_calls s, s_caught s)
-        end in
-      let st := match delayed st with
-                | Some (h, m) => if msg_eqb m (Some k) then cancel_handle (set_delayed st None) h else st
-                | None => st
-                end in
-      (st, calls, caught)
-    else (st, s_calls s, s_caught s) in
+  let r := if s_called s then exit_called st k s exc else (st, s_calls s, s_caught s) in
+  let st := if s_called s then exit_drop_delayed (fst (fst r)) k else fst (fst r) in
+  let calls := snd (fst r) in
+  let caught := snd r in
   let st := put_scope st k (mkScope false (s_hostc s) calls SExited (s_called s) caught (s_deadline s) None None) in
   let st := set_g_leak st (g_leak st + calls) in
   (check_pending st, caught).
@@ -794,3 +802,8 @@ Definition init (p : prog) (timers : list nat) (turns : list (nat * bool)) (k : 
   let st := mkState 0 [mkH 0 HStep false] [] 1 [] [] [] None false None 0 None MLoop [FStart p] 0 0 0 k turns []
                     0 0 0 false in
   push_timers timers st.
+
+(* ================= observation functions used in the statements of the theorems ================= *)
+(* cancel requests a scope has issued and not yet taken back with task.uncancel(): only while it is active *)
+Definition owed (s : scope) : nat := if s_host s then s_calls s else 0.
+Fixpoint owed_sum (l : list scope) : nat := match l with [] => 0 | s :: l' => owed s + owed_sum l' end.
